@@ -264,10 +264,11 @@ impl<'a> LoweringManager<'a> {
             (false, false, None, false)
           };
         // Get the target function's expected parameter types for direct calls
-        let callee_param_types = if let lir::Expression::FnName(_, fn_type) = callee {
-          Some(&fn_type.argument_types)
-        } else {
-          None
+        // ... and likewise for indirect calls through a function-typed variable
+        let callee_param_types = match callee {
+          lir::Expression::FnName(_, fn_type) => Some(&fn_type.argument_types),
+          lir::Expression::Variable(_, lir::Type::Fn(fn_type)) => Some(&fn_type.argument_types),
+          _ => None,
         };
         let argument_instructions = arguments
           .iter()
